@@ -46,38 +46,39 @@ type pathRec struct {
 }
 
 type eng struct {
-	deep    int // extra elements in child lists (thorough tier)
-	p       *load.Program
-	s       *oblig.Set
-	vm      *vmshape.Model
-	nodeSp  *ssa.Package
-	bcSp    *ssa.Package
-	nodeI   *types.Interface
-	nodeT   types.Type
-	listT   types.Type
-	impls   map[string]types.Type
-	bcFn    map[string]*ssa.Function
-	hcFn    map[string]*ssa.Function
-	classes map[string][]string
-	ops     map[string][]string
-	roots   []string
-	sums    map[key]map[string]childOut
-	deps    map[key]map[key]bool
-	queued  map[key]bool
-	queue   []key
-	paths   map[key][]*pathRec
-	addrK   map[string]int64
-	addrNm  map[int64]string
-	opNm    map[int64]string
-	opVal   map[string]int64
-	passT   types.Type
-	dataT   types.Type
-	crT     types.Type
-	instrT  types.Type
-	nruns   int
-	npaths  int
-	final   bool
-	opInfos map[int64]opInfo
+	deep        int // extra elements in child lists (thorough tier)
+	nodeGlobals map[*ssa.Global]*absint.Cell
+	p           *load.Program
+	s           *oblig.Set
+	vm          *vmshape.Model
+	nodeSp      *ssa.Package
+	bcSp        *ssa.Package
+	nodeI       *types.Interface
+	nodeT       types.Type
+	listT       types.Type
+	impls       map[string]types.Type
+	bcFn        map[string]*ssa.Function
+	hcFn        map[string]*ssa.Function
+	classes     map[string][]string
+	ops         map[string][]string
+	roots       []string
+	sums        map[key]map[string]childOut
+	deps        map[key]map[key]bool
+	queued      map[key]bool
+	queue       []key
+	paths       map[key][]*pathRec
+	addrK       map[string]int64
+	addrNm      map[int64]string
+	opNm        map[int64]string
+	opVal       map[string]int64
+	passT       types.Type
+	dataT       types.Type
+	crT         types.Type
+	instrT      types.Type
+	nruns       int
+	npaths      int
+	final       bool
+	opInfos     map[int64]opInfo
 }
 
 const (
@@ -95,6 +96,9 @@ func Run(p *load.Program, tier string) *oblig.Set {
 	}
 	if !e.anchors() {
 		return s
+	}
+	if g, end := absint.InitGlobals(p.SSA, e.nodeSp); end == nil {
+		e.nodeGlobals = g
 	}
 	e.fixpoint()
 	e.final = true
@@ -602,6 +606,16 @@ func (e *eng) onePath(k key, o *absint.Oracle, reqs map[key]bool) *pathRec {
 	p := e.p
 	pa := &pathRec{key: k, lens: map[string]int{}}
 	in := absint.NewInterp(p.SSA, o)
+	if e.nodeGlobals != nil {
+		// package level tables of the compiler have their contents; nothing
+		// writes them after initialisation, so the runs can share them
+		// (each run gets its own map: runs are parallel and a run may add cells
+		// for other globals it meets)
+		in.Globals = make(map[*ssa.Global]*absint.Cell, len(e.nodeGlobals)+8)
+		for g, c := range e.nodeGlobals {
+			in.Globals[g] = c
+		}
+	}
 	in.MaxStep = 200000
 	r := &runState{e: e, in: in, pa: pa, cs: &seg{name: "CS"}, ds: &seg{name: "DS"}, reqs: reqs}
 	e.hooks(r)
